@@ -164,6 +164,43 @@ class Impl:
             self.node(("step", op[1])).hold()
         elif name == "release":
             self.node(("step", op[1])).release()
+        elif name == "skip_overtaken":
+            # Executor.try_skip_job, `overtaken` branch: keep the hash and check again
+            self.node(("step", op[1])).set_state(StepState.PENDING)
+        elif name == "mark_steps_pending":
+            # second transaction of startup.reset_interrupted_steps / rescan_env_vars / start_build_phase
+            for l in op[1]:
+                wf.mark_step_pending(self.node(("step", l)))
+        elif name == "invalidate_steps":
+            # Watcher.run_once / startup.rescan_nglobs: the real process_nglob_changes; the steps whose
+            # registration changed are an observation
+            # (observed as the registrations whose persisted matches changed)
+            q = "SELECT nglob.i, node.label, data FROM nglob JOIN node ON node.i = nglob.node"
+            before = {i: (l, dt) for i, l, dt in self.db.execute(q)}
+            self.last_invalidated = []
+            wf.process_nglob_changes(set(op[2]), set(op[3]))
+            self.last_invalidated = sorted({l for i, l, dt in self.db.execute(q) if before.get(i, (l, None))[1] != dt})
+        elif name == "init_boot":
+            # no plan.py in the working directory: FileHash.refreshed gives the unknown hash
+            import os
+            assert not os.path.exists("plan.py"), "E2 must not run in a directory with a plan.py"
+            wf.initialize_boot()
+        elif name == "frame":
+            kind = op[1]
+            if kind == "nglob":
+                from stepup.core.nglob import NamedGlob
+                ng = NamedGlob(op[3])
+                ng.extend(op[4])
+                wf.register_nglob(self.node(("step", op[2])), ng)
+            elif kind == "env_value":
+                # the statement of startup.rescan_env_vars
+                self.db.execute("UPDATE env_var SET value = ? WHERE name = ?", (op[2], op[3]))
+            elif kind == "reconcile":
+                wf.reconcile_targets()
+            elif kind == "duration":
+                self.node(("step", op[2])).set_duration(1.5)
+            else:
+                raise AssertionError(kind)
         elif name == "check_consistency":
             # Trellis.initialize on a non-fresh database: the consistency check with its repair, in
             # production mode (STEPUP_DEBUG off: a SUCCEEDED step with an unbuilt output is rerun)
@@ -184,6 +221,57 @@ class Impl:
                 wf.mark_step_pending(step)
         else:
             raise AssertionError(f"unknown op {name}")
+
+    async def optional_labels(self):
+        """The attached steps that finalize.revert_optional_steps will select (it reads the scheduling
+        cache _implied_need, which is outside the model)."""
+        async with self.db:
+            return tuple(sorted(l for (l,) in self.db.execute(
+                "SELECT label FROM step JOIN node ON step.node = node.i WHERE _implied_need = ? AND NOT node.detached",
+                (Need.OPTIONAL.value,))))
+
+    async def apply_self_tx(self, fn) -> tuple[str, str]:
+        """A real coroutine of the package that opens its own transaction(s)."""
+        self._deadline = time.monotonic() + QUERY_DEADLINE_S
+        try:
+            await fn()
+            return "ok", ""
+        except BaseException as e:  # noqa: BLE001
+            if isinstance(e, (KeyboardInterrupt, SystemExit, asyncio.CancelledError)):
+                raise
+            return classify(e), f"{type(e).__name__}: {e}"
+        finally:
+            self._deadline = None
+
+    async def revert_optional(self):
+        from stepup.core.finalize import revert_optional_steps
+
+        async def reporter(*args, **kwargs):
+            return None
+
+        r = await self.apply_self_tx(lambda: revert_optional_steps(self.wf, reporter))
+        self.wf.to_be_deleted.clear()
+        return r
+
+    async def reset_interrupted_real(self):
+        """The real startup.reset_interrupted_steps: two transactions; the reporter is called between
+        them (only when there are FAILED steps), which is where the intermediate dump is taken.
+        Returns [(op, outcome, detail, dump)] with one or two entries."""
+        from stepup.core.startup import reset_interrupted_steps
+        mid = []
+
+        async def reporter(*args, **kwargs):
+            mid.append(await self.dump())
+
+        oc, detail = await self.apply_self_tx(lambda: reset_interrupted_steps(self.wf, reporter))
+        final = await self.dump()
+        if not mid:
+            return [(("reset_interrupted_raw",), oc, detail, final)]
+        d = mid[0]
+        det = {k: x for k, _, x in d["nodes"]}
+        failed = tuple(sorted(l for l, st, *_ in d["steps"]
+                              if st == StepState.FAILED.value and not det.get(("step", l), True)))
+        return [(("reset_interrupted_raw",), "ok", "", d), (("mark_steps_pending", failed), oc, detail, final)]
 
     async def dispatch(self):
         """The real Scheduler.pop_next_job; returns (label, kind) or None, or ('!', error)."""
@@ -217,6 +305,9 @@ class Impl:
                 os.environ["STEPUP_DEBUG"] = old
 
     # -- canonical dump -----------------------------------------------------------------------
+    # DUMP_COLUMNS (module level, below the class) lists the columns these queries read; the
+    # writer inventory (translator/gen_writers.py) classifies every write statement of the package
+    # against it.
     async def dump(self):
         async with self.db:
             return self._dump()
@@ -241,6 +332,37 @@ class Impl:
 
     def query(self, sql, args=()):
         return self.db._con.execute(sql, args).fetchall() if hasattr(self.db, "_con") else None
+
+
+# The columns of the persistent tables that Impl._dump reads = what model/Graph.v describes.
+# `i` of node/dependency is only used to resolve references (keys are (kind, label)); step_hash
+# and dynamic_dep are read for the presence of a row only (their key column).
+DUMP_COLUMNS = {
+    "node": ("i", "kind", "label", "creator", "detached"),
+    "file": ("node", "state", "hash"),
+    "step": ("node", "state", "need", "deferred", "defer_count", "_holding", "_has_hash"),
+    "dependency": ("i", "source", "sink"),
+    "dynamic_dep": ("i",),
+    "step_hash": ("node",),
+    "env_var": ("node", "name", "dynamic"),
+}
+
+
+def _check_dump_columns():
+    """The SELECTs of Impl._dump mention exactly DUMP_COLUMNS (kept in sync by construction)."""
+    import inspect
+    import re
+    src = inspect.getsource(Impl._dump)
+    sel = {}
+    for cols, table in re.findall(r'SELECT ([\w, ]+?) FROM (\w+)"', src):
+        sel.setdefault(table, set()).update(c.strip() for c in cols.split(","))
+    sel.setdefault("dependency", set()).add("i")        # dynamic_dep.i = dependency.i (sub-select)
+    for m in re.finditer(r'"SELECT source, sink, EXISTS\(SELECT 1 FROM dynamic_dep WHERE dynamic_dep\.i = dependency\.i\) "', src):
+        sel.setdefault("dependency", set()).update({"source", "sink"})
+        sel.setdefault("dynamic_dep", set()).add("i")
+    want = {t: set(c) for t, c in DUMP_COLUMNS.items()}
+    if sel != want:
+        raise AssertionError(f"harness/e2.py: DUMP_COLUMNS {want} != columns read by _dump {sel}")
 
 
 def dependency_cycle(d):
@@ -312,11 +434,66 @@ class Gen:
         self.creator = {k: c for k, c, _ in d["nodes"]}
         return d
 
+    def shape(self, op):
+        """Argument shape of a transaction, judged on the state BEFORE it (for the distribution that
+        goes into the evidence)."""
+        n = op[0]
+        det = lambda k: self.detached.get(k, None)
+        if n == "define_step":
+            _, c, l, i, e, o, v, nd = op
+            k = ("step", l)
+            if k not in self.detached:
+                how = "new"
+            elif not self.detached[k]:
+                how = "exists-attached"
+            elif self.defs.get(l) == (tuple(i), tuple(e), tuple(o), tuple(v), nd):
+                how = "detached-same-spec"
+            else:
+                how = "detached-changed-spec"
+            return (f"{how}:creator-{'root' if c[0] == 'root' else ('detached' if det(c) else 'attached')}"
+                    f":inp{min(len(i), 2)}:out{min(len(o), 2)}:vol{len(v)}:env{len(e)}:{nd}")
+        if n == "amend_step":
+            _, l, i, e, o, v = op
+            return f"inp{min(len(i), 2)}:env{len(e)}:out{len(o)}:vol{len(v)}:{'detached' if det(('step', l)) else 'attached'}"
+        if n == "exec_end":
+            _, l, pre, cause, hs, ok, wd = op
+            kind = "success" if ok else ("defer" if wd else "failed")
+            return (f"{kind}:pre{min(len(pre), 1)}:hashes{min(len(hs), 2)}:"
+                    f"{'detached' if det(('step', l)) else 'attached'}:from-{self.sstate.get(l)}")
+        if n == "update_hashes":
+            return f"{op[1]}:n{min(len(op[2]), 3)}:" + "+".join(sorted({('known' if h is not None else 'unknown') for _, h in op[2]}))
+        if n == "declare_static":
+            under = any("/" in p for p in op[2])
+            return f"creator-{op[1][0]}:n{len(op[2])}:{'under-dir' if under else 'plain'}"
+        if n in ("reset_for_rerun", "reset_to_pending", "validate_pending", "mark_step_pending", "hold", "release",
+                 "skip_overtaken"):
+            l = op[1]
+            return f"{'detached' if det(('step', l)) else 'attached'}:from-{self.sstate.get(l)}"
+        if n in ("mark_steps_pending", "invalidate_steps", "revert_optional"):
+            return f"n{min(len(op[1]), 3)}"
+        if n == "frame":
+            return op[1]
+        return ""
+
     async def record(self, op):
-        outcome, detail = await self.impl.apply(op)
+        shape = self.shape(op) if hasattr(self, "d") else ""
+        if op[0] == "revert_optional":
+            # the selection of the implementation (scheduling cache) is a parameter of the model op
+            op = ("revert_optional", await self.impl.optional_labels())
+            shape = self.shape(op)
+            outcome, detail = await self.impl.revert_optional()
+        else:
+            outcome, detail = await self.impl.apply(op)
+        if op[0] == "invalidate_steps":
+            # ... as are the registrations that process_nglob_changes found changed
+            op = ("invalidate_steps", tuple(self.impl.last_invalidated), op[2], op[3])
+            shape = self.shape(op)
         d = await self.snapshot()
         self.trace.append((op, outcome, detail, d))
         self.opcount[op[0] + ":" + outcome] = self.opcount.get(op[0] + ":" + outcome, 0) + 1
+        if shape:
+            k = f"shape:{op[0]}:{shape}"
+            self.opcount[k] = self.opcount.get(k, 0) + 1
         if dependency_cycle(d):
             # the stored graph is cyclic (reported by the oracle): nothing after this point is
             # meaningful and recursive statements may not terminate; end the trace here
@@ -678,8 +855,10 @@ class Gen:
         await self.boot()
         rng = self.rng
         r0 = rng.random()
-        if self.startup and r0 < 0.7:
+        if self.startup and r0 < 0.35:
             await self.scenario_sloppy()
+        elif self.startup and r0 < 0.7:
+            await self.scenario_optional()
         elif r0 < 0.4:
             await self.scenario()
         elif r0 < 0.75:
@@ -708,6 +887,14 @@ class Gen:
             if not self.jobs:
                 cats.append(("finalize", 6, [()]))
             cats.append(("crash", 2 if self.startup else 1, [()]))
+            if self.startup:
+                # transactions of model/GraphExt.v (outside the 15-operation alphabet)
+                if running:
+                    cats.append(("nglob", 7, [(l,) for l in running]))
+                cats.append(("frame", 2, [()]))
+                if not self.jobs:
+                    cats += [("globchange", 3, [()]), ("revert", 2, [()]), ("failedpending", 3, [()]),
+                             ("reboot", 1, [()])]
             name, _, args = rng.choices(cats, weights=[c[1] for c in cats])[0]
             c = (name, *rng.choice(args))
             await getattr(self, "g_" + c[0])(*c[1:])
@@ -848,6 +1035,9 @@ class Gen:
     async def g_skip(self, label):
         rng = self.rng
         self.jobs.pop(label, None)
+        if self.startup and rng.random() < 0.25:
+            await self.record(("skip_overtaken", label))
+            return
         if rng.random() < 0.5:
             hs = self.success_hashes(label)
             await self.record(("exec_end", label, (), "SUCCEEDED", hs, True, False))
@@ -914,7 +1104,87 @@ class Gen:
         self.jobs.clear()
         if self.startup:
             await self.record(("check_consistency",))
+            if self.rng.random() < 0.3:
+                await self.g_reboot()
+            # the REAL startup.reset_interrupted_steps: two transactions, observed separately
+            for item in await self.impl.reset_interrupted_real():
+                self.trace.append(item)
+                k = item[0][0] + ":" + item[1]
+                self.opcount[k] = self.opcount.get(k, 0) + 1
+            await self.snapshot()
+            return
         await self.record(("reset_interrupted",))
+
+    # -- transactions outside the 15-operation alphabet (model/GraphExt.v) ------------------------
+    async def g_reboot(self):
+        """Workflow.initialize_boot on an existing database (no-op, or re-initialisation when plan.py
+        is not CONFIRMED: every product of the root is detached first)."""
+        if self.rng.random() < 0.4 and self.fstate.get("plan.py") == FileState.CONFIRMED.value \
+                and not self.detached.get(("file", "plan.py"), True):
+            await self.record(("update_hashes", "EXTERNAL", (("plan.py", None),)))
+        await self.record(("init_boot", None))
+
+    async def g_nglob(self, label):
+        paths = tuple(p for p in ("g0", "g1") if self.rng.random() < 0.5)
+        await self.record(("frame", "nglob", label, "g*", paths))
+
+    async def g_globchange(self):
+        pick = lambda: {p for p in ("g0", "g1", "g2") if self.rng.random() < 0.4}
+        deleted = pick()
+        updated = pick() - deleted
+        await self.record(("invalidate_steps", (), tuple(sorted(deleted)), tuple(sorted(updated))))
+
+    async def g_revert(self):
+        await self.record(("revert_optional", ()))
+
+    async def g_failedpending(self):
+        failed = tuple(sorted(l for l, st in self.sstate.items()
+                              if st == StepState.FAILED.value and not self.detached.get(("step", l), True)))
+        if failed:
+            await self.record(("mark_steps_pending", failed))
+
+    async def g_frame(self):
+        r = self.rng.random()
+        if r < 0.4 and self.d["envs"]:
+            await self.record(("frame", "env_value", self.rng.choice(["a", "b", None]), self.rng.choice(ENVS)))
+        elif r < 0.7:
+            await self.record(("frame", "reconcile"))
+        elif self.sstate:
+            await self.record(("frame", "duration", self.rng.choice(sorted(self.sstate))))
+
+    async def scenario_optional(self):
+        """An OPTIONAL producer runs because a DEFAULT consumer needs it; the plan is rerun and declares
+        only the producer again; after finalize (the consumer is deleted) the producer is optional
+        again and finalize.revert_optional_steps puts it back to PENDING and its outputs to PLANNED."""
+        rng = self.rng
+        plan = "./plan.py"
+        if not await self.run_to_running(plan):
+            return
+        a, b = rng.sample(STEPS, 2)
+        vol = ("f5",) if rng.random() < 0.4 else ()
+        spec_a = ((), (), ("f1",) if rng.random() < 0.6 else ("f1", "f2"), vol, "OPTIONAL")
+        spec_b = (("f1",), (), ("f3",), (), "DEFAULT")
+        for lab, spec in ((a, spec_a), (b, spec_b)):
+            if await self.record(("define_step", ("step", plan), lab, *spec)) != "ok":
+                return
+            self.defs[lab] = spec
+        self.jobs.pop(plan, None)
+        await self.record(("exec_end", plan, (), "SUCCEEDED", (), True, False))
+        for lab in (a, b):
+            if not await self.run_to_running(lab):
+                return
+            self.jobs.pop(lab, None)
+            await self.record(("exec_end", lab, (), "SUCCEEDED", self.success_hashes(lab), True, False))
+        await self.record(("mark_step_pending", plan))
+        if not await self.run_to_running(plan):
+            return
+        await self.record(("define_step", ("step", plan), a, *spec_a))
+        self.jobs.pop(plan, None)
+        await self.record(("exec_end", plan, (), "SUCCEEDED", (), True, False))
+        await self.record(("delete_detached",))
+        await self.g_dispatch()                     # recomputes _implied_need
+        if not self.jobs:
+            await self.g_revert()
 
 
 # ---------------------------------------------------------------------------------------------
